@@ -121,16 +121,8 @@ theorem path_inj {a b : Name} (h : withExt (segments a) = withExt (segments b)) 
 /-! ### the import stack is at most `files.length + 1` deep -/
 
 theorem msrc_path {files : Files} {mainSrc : ModuleSrc} {n : Name} {s : ModuleSrc} (hne : n ≠ mainName)
-    (h : msrc files mainSrc n = some s) : withExt (segments n) ∈ files.map (fun p => p.1) := by
-  unfold msrc at h
-  simp only [hne, if_false] at h
-  rcases libType_cases n with hty | hty
-  · have : finder files (parseLibName n) = .emptySrc := by unfold finder; rw [hty]
-    rw [this] at h; simp at h
-  · rw [finder_custom files hty] at h
-    cases hs : assoc (withExt (segments n)) files with
-    | none => rw [hs] at h; simp at h
-    | some s' => exact List.mem_map.2 ⟨(_, s'), assoc_mem hs, rfl⟩
+    (h : msrc files mainSrc n = some s) : withExt (segments n) ∈ files.map (fun p => p.1) :=
+  List.mem_map.2 ⟨(_, s), assoc_mem (msrc_plain hne h).2.2, rfl⟩
 
 theorem stack_length_le {files : Files} {mainSrc : ModuleSrc} {vm : VM} {st : List Nat}
     (hS : SInv files mainSrc vm) (hL : LInv files mainSrc vm st) : st.length ≤ files.length + 1 := by
@@ -297,7 +289,7 @@ theorem redeclare_nofuel (l : List (Name × Val)) (vm : VM) : NoFuelErr (redecla
     rcases h.2 with rfl | rfl <;> simp [NoFuelErr]
 
 theorem loadModule_specC {files : Files} {mainSrc : ModuleSrc} {O : Oracle} {libs : Libs} {cf : Nat}
-    (hO : OracleOK O) : ∀ f, LoadSpecC files mainSrc (files.length + 2 - f) (loadModule O files libs cf f)
+    (hO : OracleOK O) : ∀ f, LoadSpecC files mainSrc (files.length + 2 - f) (loadModule .repaired O files libs cf f)
   | 0 => by
     intro vm n m rest nm src imp hS hL _ _ _ _ _ hd
     have := stack_length_le hS hL
@@ -307,7 +299,7 @@ theorem loadModule_specC {files : Files} {mainSrc : ModuleSrc} {O : Oracle} {lib
   | f + 1 => by
     intro vm n m rest nm src imp hS hL hC himp hname hreg hty hd
     unfold loadModule
-    cases hfind : finder files (parseLibName n) with
+    cases hfind : finder .repaired files (parseLibName n) with
     | panic => simp [NoFuelErr]
     | notFound => simp [NoFuelErr]
     | emptySrc => simp [NoFuelErr]
@@ -344,7 +336,7 @@ theorem loadModule_specC {files : Files} {mainSrc : ModuleSrc} {O : Oracle} {lib
         simp only [List.length_cons] at hd ⊢; omega
       have c1 := evalProgram_specC (libs := libs) (cf := cf) hO (loadModule_spec (libs := libs) (cf := cf) hO f)
         (loadModule_specC hO f) hS1 hL1 hC1 hd1
-      cases hr : evalProgram O libs cf (loadModule O files libs cf f) vm1 (namesOf vm).length s with
+      cases hr : evalProgram O libs cf (loadModule .repaired O files libs cf f) vm1 (namesOf vm).length s with
       | err e vm' => rw [hr] at c1; exact c1
       | ok vm2 =>
         dsimp only
@@ -358,7 +350,7 @@ theorem loadModule_specC {files : Files} {mainSrc : ModuleSrc} {O : Oracle} {lib
           | some vm4 => trivial
 
 theorem runWith_nofuel {files : Files} {mainSrc : ModuleSrc} {O : Oracle} {libs : Libs} {cf : Nat} (hO : OracleOK O) :
-    NoFuelErr (runWith O files libs (loadFuelFor files) cf mainSrc) := by
+    NoFuelErr (runWith .repaired O files libs (loadFuelFor files) cf mainSrc) := by
   obtain ⟨hS, hL, hC⟩ := start_invariants files mainSrc
   have hd : files.length + 2 - loadFuelFor files ≤ [0].length := by
     unfold loadFuelFor; show _ ≤ 1; omega
@@ -367,14 +359,14 @@ theorem runWith_nofuel {files : Files} {mainSrc : ModuleSrc} {O : Oracle} {libs 
   unfold runWith
   dsimp only
   have e0 : (VM.init.allocateModule mainName).2 = 0 := rfl
-  change NoFuelErr (match evalProgram O libs cf (loadModule O files libs cf (loadFuelFor files)) vmStart
+  change NoFuelErr (match evalProgram O libs cf (loadModule .repaired O files libs cf (loadFuelFor files)) vmStart
       (VM.init.allocateModule mainName).2 mainSrc with
     | .err e vm' => Res.err e vm'
     | .ok vm2 => match vm2.popFrame with
       | none => Res.err Err.panic vm2
       | some vm3 => Res.ok vm3)
   rw [e0]
-  cases hr : evalProgram O libs cf (loadModule O files libs cf (loadFuelFor files)) vmStart 0 mainSrc with
+  cases hr : evalProgram O libs cf (loadModule .repaired O files libs cf (loadFuelFor files)) vmStart 0 mainSrc with
   | err e vm' => rw [hr] at c1; exact c1
   | ok vm2 =>
     dsimp only
